@@ -286,7 +286,7 @@ HARNESSES = [
 ]
 
 MANIFEST = {
-    'engine': 'symx+irsym',
+    'engine': 'symx',
     'technique': 'symbolic execution (CrossHair engine + z3 strings) of the real comparison/hash methods on symbolic name/module '
                  'strings; solver-enumerated string pool on both builds; cross-process sort',
     'text': 'S tier: every path of _compare/__lt__.../__eq__/__hash__ for all name/module strings up to the length bound is explored '
